@@ -51,7 +51,7 @@ func localT3() reflect.Type {
 
 var c09Static = []reflect.Type{
 	reflect.TypeOf(atypes.T{}), reflect.TypeOf(btypes.T{}), reflect.TypeOf(atypes.U{}), reflect.TypeOf(btypes.U{}),
-	localT1(), localT2(), localT3(), tRec,
+	localT1(), localT2(), localT3(), tRec, reflect.TypeOf(DeepTop{}), reflect.TypeOf(DeepMid{}),
 }
 
 type c09Op struct {
@@ -78,6 +78,31 @@ func (o c09Op) String() string {
 	}
 }
 
+// arg is what Marshal receives: the value, or a pointer to an addressable copy of it.
+func (o *c09Op) arg() interface{} {
+	if len(o.Ptr) > 0 && o.Ptr[0] {
+		p := reflect.New(o.V.Type())
+		p.Elem().Set(o.V)
+		return p.Interface()
+	}
+	return o.V.Interface()
+}
+
+// DeepTop: structs nested beyond the default inline depth with a pointer-receiver
+// marshaler at the bottom (the encoder's addressability flag must survive recursion
+// records and Pretouch rounds).
+type DeepD struct {
+	M CbPtr
+	P *CbPtr
+	L []CbPtr
+}
+type DeepL struct{ D DeepD }
+type DeepMid struct{ L DeepL }
+type DeepTop struct {
+	Mid DeepMid
+	N   int
+}
+
 func c09Do(types []reflect.Type, o *c09Op) (res c08Res) {
 	defer func() {
 		if r := recover(); r != nil {
@@ -86,7 +111,7 @@ func c09Do(types []reflect.Type, o *c09Op) (res c08Res) {
 	}()
 	switch o.Kind {
 	case 0:
-		b, err := stdAPI.Marshal(o.V.Interface())
+		b, err := stdAPI.Marshal(o.arg())
 		return c08Res{Out: string(b), Err: errStr(err)}
 	case 1:
 		p := reflect.New(types[o.T])
@@ -166,6 +191,7 @@ func runC09(c *Ctx) Result {
 		switch o.Kind {
 		case 0:
 			o.V = z.Value(types[o.T], 0)
+			o.Ptr = []bool{g.d(2) == 0} // Marshal(&v): the value is addressable (matters for pointer-receiver marshalers)
 		case 1:
 			v := z.Value(types[o.T], 0)
 			b, err := json.Marshal(v.Interface())
@@ -227,7 +253,7 @@ func runC09(c *Ctx) Result {
 		}
 		switch o.Kind {
 		case 0:
-			b, err := json.Marshal(o.V.Interface())
+			b, err := json.Marshal(o.arg())
 			ref := c08Res{Out: string(b), Err: errStr(err)}
 			if !c08Same(r, ref, false) {
 				suspects = append(suspects, pending{i, ref})
